@@ -113,6 +113,16 @@ fn candidates(sc: &Scenario, vround: usize) -> Vec<Scenario> {
             s.rounds[ri].plan.misuse.remove(mi);
             out.push(s);
         }
+        if !r.plan.reconsider.is_empty() {
+            let mut s = sc.clone();
+            s.rounds[ri].plan.reconsider.clear();
+            out.push(s);
+        }
+        for mi in 0..r.plan.reconsider.len() {
+            let mut s = sc.clone();
+            s.rounds[ri].plan.reconsider.remove(mi);
+            out.push(s);
+        }
         if r.plan.policy != Policy::Sequential {
             let mut s = sc.clone();
             s.rounds[ri].plan.policy = Policy::Sequential;
